@@ -208,3 +208,36 @@ def value_views_ok(W, k, val, hi, lo, newbits, path) -> bool:
     mask = ((1 << width) - 1) << lo
     want = (val & ~mask) | (part << lo)
     return int(str(x.bitvector), 2) == want
+
+
+def array_copy_ok(k, n, c, val, idx, newv, how) -> bool:
+    """an Array (plain or qualified) constructed from / copied from another Array does not share element storage with it"""
+    k, n, c, how = conc(k, 0, 2), conc(n, 1, 3), conc(c, 1, 3), conc(how, 0, 3)
+    top = (1 << n) - 1
+    val, idx, newv = conc(val, 0, top), conc(idx, 0, 2), conc(newv, 0, top)
+    if idx >= c:
+        return True
+    T = Array[vec(k, n), c]
+    elem = lambda x: (vec(k, n)(_bits(x, n)) if k == 0 else vec(k, n)(BitVector[n](_bits(x, n))))
+    src = T([elem(val) for _ in range(c)])
+    if how == 0:
+        dst = T(src)
+        dst[idx]._assign(elem(newv))
+        other = src
+    elif how == 1:
+        dst = src.copy()
+        dst[idx]._assign(elem(newv))
+        other = src
+    elif how == 2:
+        s1 = Signal[T](src)
+        s2 = Signal[T](src)
+        TQ.TypeQualifier.decay(s1)[idx]._assign(elem(newv))
+        other = TQ.TypeQualifier.decay(s2)
+        if int(str(src[idx].bitvector), 2) != val:
+            return False
+    else:
+        s1 = Signal[T](src)
+        cp = s1.copy()
+        TQ.TypeQualifier.decay(cp)[idx]._assign(elem(newv))
+        other = TQ.TypeQualifier.decay(s1)
+    return int(str(other[idx].bitvector), 2) == val
